@@ -43,6 +43,9 @@ pub fn class_code(c: CLASS) -> u16 {
         CLASS::CH => 3,
         CLASS::HS => 4,
         CLASS::NONE => 254,
+        // a variant this harness does not know of (a changed tree may add one): its discriminant
+        #[allow(unreachable_patterns)]
+        other => other as u16,
     }
 }
 
@@ -65,6 +68,8 @@ pub fn qtype_code(q: QTYPE) -> u16 {
         QTYPE::MAILA => 254,
         QTYPE::ANY => 255,
         QTYPE::TYPE(t) => u16::from(t),
+        #[allow(unreachable_patterns)]
+        other => u16::from(other),
     }
 }
 
@@ -80,6 +85,8 @@ pub fn qclass_code(q: QCLASS) -> u16 {
     match q {
         QCLASS::ANY => 255,
         QCLASS::CLASS(c) => class_code(c),
+        #[allow(unreachable_patterns)]
+        other => u16::from(other),
     }
 }
 
@@ -103,6 +110,8 @@ pub fn opcode_code(o: OPCODE) -> u8 {
         OPCODE::Notify => 4,
         OPCODE::Update => 5,
         OPCODE::Reserved => OPCODE_RESERVED,
+        #[allow(unreachable_patterns)]
+        _ => OPCODE_RESERVED,
     }
 }
 
@@ -140,6 +149,8 @@ pub fn rcode_code(r: RCODE) -> u16 {
         RCODE::NOTZONE => 10,
         RCODE::BADVERS => 16,
         RCODE::Reserved => RCODE_RESERVED,
+        #[allow(unreachable_patterns)]
+        _ => RCODE_RESERVED,
     }
 }
 
@@ -656,6 +667,11 @@ pub fn observe_rdata(rd: &RData) -> ARData {
         RData::EUI48(e) => (108, vec![V::Bytes(RB::from(e.address.to_vec()))]),
         RData::EUI64(e) => (109, vec![V::Bytes(RB::from(e.address.to_vec()))]),
         RData::CAA(c) => (257, vec![V::U8(c.flag), V::Bytes(ocs(&c.tag)), b(&c.value)]),
+        // a variant this harness does not know of (a changed tree may add one): shown as opaque data of its type
+        #[allow(unreachable_patterns)]
+        other => {
+            return ARData::Unknown { code: u16::from(other.type_code()), data: RB::from(format!("{:?}", other).into_bytes()) };
+        }
     };
     ARData::Typed { code, fields }
 }
